@@ -134,6 +134,9 @@ type env struct {
 	dir  string
 	seq  int
 	info coremain.PluginTypeInfo
+
+	mos     *coremain.Mosdns
+	plugins map[string]any
 }
 
 func (e *env) tmpFile(content string) (string, error) {
@@ -183,7 +186,7 @@ func (e *env) load(c *Case, layer string, oi int) (ld loaded) {
 	l := netlist.NewList()
 	switch layer {
 	case "append":
-		v := (c.Idx + oi) % len(appendVariants)
+		v := c.Idx % len(appendVariants) // one variant per case: differences between its 3 loads are due to the order alone
 		ld.variant = appendVariants[v]
 		ps := make([]netip.Prefix, n)
 		for k, ix := range order {
@@ -220,7 +223,7 @@ func (e *env) load(c *Case, layer string, oi int) (ld loaded) {
 	case "reader":
 		txt := readerText(c, order, 0, n, !c.NoFinalNL)
 		var err error
-		if (c.Idx+oi)%2 == 0 {
+		if c.Idx%2 == 0 {
 			ld.variant = "LoadFromReader"
 			err = netlist.LoadFromReader(l, strings.NewReader(txt))
 		} else {
@@ -234,11 +237,15 @@ func (e *env) load(c *Case, layer string, oi int) (ld loaded) {
 		l.Sort()
 	case "ipset":
 		// the file-backed variants cost six system calls per file: every 4th case
+		// (one variant per case, see above)
 		var v int
-		if c.Idx%4 == 0 {
-			v = (c.Idx/4 + oi) % 3
-		} else {
-			v = []int{0, 3}[(c.Idx+oi)%2]
+		switch c.Idx % 4 {
+		case 0:
+			v = 1 + (c.Idx/4)%2
+		case 1:
+			v = 0
+		default:
+			v = 3
 		}
 		ld.variant = ipsetVariants[v]
 		switch v {
@@ -294,14 +301,21 @@ func (e *env) load(c *Case, layer string, oi int) (ld loaded) {
 				}
 				files = []string{f}
 			}
-			m0 := coremain.NewTestMosdnsWithPlugins(map[string]any{})
-			subP, err := e.info.NewPlugin(coremain.NewBP("sub", m0), &ip_set.Args{IPs: sub})
+			// one test Mosdns per worker (building one registers the process and
+			// Go metric collectors, far more work than the case itself); its plugin
+			// map is ours, so the "sub" entry is replaced per load
+			if e.mos == nil {
+				e.plugins = map[string]any{}
+				e.mos = coremain.NewTestMosdnsWithPlugins(e.plugins)
+			}
+			delete(e.plugins, "sub")
+			subP, err := e.info.NewPlugin(coremain.NewBP("sub", e.mos), &ip_set.Args{IPs: sub})
 			if err != nil {
 				ld.err = err
 				return
 			}
-			m1 := coremain.NewTestMosdnsWithPlugins(map[string]any{"sub": subP})
-			mainP, err := e.info.NewPlugin(coremain.NewBP("main", m1), &ip_set.Args{IPs: ips, Files: files, Sets: []string{"sub"}})
+			e.plugins["sub"] = subP
+			mainP, err := e.info.NewPlugin(coremain.NewBP("main", e.mos), &ip_set.Args{IPs: ips, Files: files, Sets: []string{"sub"}})
 			if err != nil {
 				ld.err = err
 				return
@@ -345,6 +359,8 @@ var (
 	lenSeen4                                                                          [33]atomic.Int64
 	lenSeen6                                                                          [129]atomic.Int64
 	entriesHist                                                                       [8]atomic.Int64 // sorted-list sizes: 0,1,2,3-4,5-8,9-16,17-64,65+
+	nOrderDependent                                                                   atomic.Int64
+	nInvalidTrue, nZonedAsked, nZonedFalse                                            atomic.Int64
 )
 
 type caseResult struct {
@@ -430,6 +446,7 @@ func (e *env) runCase(c *Case) (res caseResult) {
 			}
 			got := make([]bool, len(qs))
 			firstBad := -1
+			var cV4, cCM int64
 			for qi, q := range qs {
 				g := ld.m.Match(q.addr)
 				got[qi] = g
@@ -437,10 +454,10 @@ func (e *env) runCase(c *Case) (res caseResult) {
 					firstBad = qi
 				}
 				if q.form != "v6" {
-					nV4FormQueries.Add(1)
+					cV4++
 				}
 				if l, ok := ld.m.(*netlist.List); ok && qi%2 == 0 {
-					nContainsVsMatch.Add(1)
+					cCM++
 					if l.Contains(q.addr) != g && len(fs) == 0 {
 						fs = append(fs, finding{layer, layer + "-match-differs-from-contains",
 							fmt.Sprintf("Match(%v)=%v but Contains gives the opposite", q.addr, g)})
@@ -448,6 +465,22 @@ func (e *env) runCase(c *Case) (res caseResult) {
 				}
 			}
 			nQueries.Add(int64(len(qs)))
+			// out of scope for the verdict (invalid / zoned addresses): must not
+			// panic; what was answered is only recorded
+			if ld.m.Match(netip.Addr{}) {
+				nInvalidTrue.Add(1)
+			}
+			for pi := range exp {
+				if exp[pi] {
+					nZonedAsked.Add(1)
+					if !ld.m.Match(netip.AddrFrom16(c.Probes[pi].a).WithZone("eth0")) {
+						nZonedFalse.Add(1)
+					}
+					break
+				}
+			}
+			nV4FormQueries.Add(cV4)
+			nContainsVsMatch.Add(cCM)
 			per = append(per, lres{got, ld.variant})
 			if firstBad >= 0 {
 				q := qs[firstBad]
@@ -456,8 +489,8 @@ func (e *env) runCase(c *Case) (res caseResult) {
 					kind = "false-positive"
 				}
 				fs = append(fs, finding{layer, layer + "-" + kind,
-					fmt.Sprintf("%s (%s, load order #%d %v): Match(%v) [probe role %s, %s form of %s] = %v, but the loaded prefixes %s cover it: %v",
-						layer, ld.variant, oi, c.Orders[oi], q.addr, c.Probes[q.probe].Role, q.form, show16(c.Probes[q.probe].a),
+					fmt.Sprintf("%s (%s, load order #%d %s): Match(%v) [probe role %s, %s form of %s] = %v, but the loaded prefixes %s cover it: %v",
+						layer, ld.variant, oi, showOrder(c.Orders[oi]), q.addr, c.Probes[q.probe].Role, q.form, show16(c.Probes[q.probe].a),
 						got[firstBad], texts(c, 12), exp[q.probe])})
 			}
 			// structural invariant
@@ -526,9 +559,11 @@ func (e *env) runCase(c *Case) (res caseResult) {
 					break
 				}
 			}
-			if dep && !strings.HasPrefix(f.key, "struct-") && !strings.HasSuffix(f.key, "-order-dependent") {
-				f.key += "-order-dependent"
-				f.what = "answer depends on the load order; " + f.what
+			if dep {
+				nOrderDependent.Add(1)
+				if !strings.HasPrefix(f.key, "struct-") && !strings.HasSuffix(f.key, "-order-dependent") {
+					f.what = "the answers also differ between the 3 load orders of the same multiset; " + f.what
+				}
 			}
 			res.findings = append(res.findings, f)
 			break // report the lowest failing layer only: the layers above are built on it
@@ -587,4 +622,11 @@ func histBucket(n int) int {
 		return 6
 	}
 	return 7
+}
+
+func showOrder(o []int) string {
+	if len(o) <= 16 {
+		return fmt.Sprint(o)
+	}
+	return fmt.Sprintf("%v…(%d items)", o[:16], len(o))
 }
